@@ -6,17 +6,17 @@
 (*            up one value per step; with the last value the generator is  *)
 (*            run (GenRow) and the row stored; invariants Satisfied (G1),  *)
 (*            PinnedInv (G2), CountInv (G3), LayoutInv on the final states.*)
-(*  degree    InitDeg: one state per (case, line); DegreeInv (G4) and, as  *)
-(*            a canary, DegreeTightInv (some constraint reaches the        *)
-(*            declared degree on some line - must be VIOLATED when the     *)
-(*            lines are dense enough, i.e. the declared degree is exact).  *)
+(*  degree    InitDeg: one state per (case, line); DegreeInv (G4: no       *)
+(*            constraint exceeds the declared degree) and DegreeExactInv   *)
+(*            (some constraint reaches it); mutant DegShift = 1.           *)
 (*  catalogue InitCat: one state per catalogue entry; Emit prints the      *)
 (*            layout / counts / roles as a REPLAY line for the harness.    *)
 (***************************************************************************)
 EXTENDS Gates, Json
 
 CONSTANTS Cases,       \* sequence of gate cases (records, see Gates)
-          Sel          \* indices of the cases to run ({} = all)
+          Sel,         \* indices of the cases to run ({} = all)
+          DegShift     \* mutant: the declared degree is lowered by DegShift (0 = none)
 
 VARIABLES g,           \* the gate case
           ch,          \* choices made so far: constants, then hash elements, then inputs
@@ -53,11 +53,15 @@ Cases17 == <<Arith(1, "full", "small"), BaseSum(2, 1), BaseSum(2, 2), BaseSum(2,
              Ra(1, 2, 0, "small", "full"), Ra(2, 1, 0, "small", "full"), Noop, Lookup(2), LookupTable(2),
              MulExt(1, "small", "small"), Reducing(1, "small"), Coset(1, 2, "small")>>
 \* P = 5 (GEN 2, ALPHA 3): extension-field gates and joint uniqueness
-Cases5 == <<Expo(1), Expo(2), Expo(3), Arith(2, "small", "small"), ArithExt(1, "small", "small"),
+Cases5 == <<Expo(1), Expo(2), Expo(3), Arith(2, "tiny", "small"), ArithExt(1, "small", "small"),
             MulExt(1, "full", "full"), Ra(2, 1, 0, "full", "full"), Ra(1, 2, 1, "small", "small"),
             Reducing(1, "full"), Reducing(2, "small"), ReducingExt(1, "small"), ReducingExt(2, "tiny"),
             MdsG(3, "small"), MdsG(4, "tiny"), Pi, Constant(3), BaseSum(2, 2), BaseSum(4, 1),
             Coset(1, 2, "small"), Poseidon(3, 1, 1, 1, ALPHA, "full")>>
+\* P = 5: joint uniqueness (G2s) on the cases with at most 4 pinned wires
+CasesUniq == <<Expo(1), Expo(2), Expo(3), Arith(2, "small", "small"), MulExt(1, "small", "small"),
+               Ra(1, 1, 0, "full", "full"), Ra(2, 1, 0, "tiny", "full"), Reducing(1, "small"), Reducing(2, "tiny"),
+               ReducingExt(1, "tiny"), BaseSum(2, 2), BaseSum(4, 1), Constant(3), Coset(1, 2, "tiny")>>
 \* P = 5: the two expensive twins
 Cases5H == <<Coset(2, 2, "tiny"), Coset(2, 4, "tiny"), Poseidon(4, 2, 2, 1, ALPHA, "small")>>
 \* ---- thorough tier additions ---------------------------------------------------------
@@ -85,6 +89,7 @@ CasesPoseidon == <<Poseidon(3, 1, 1, 1, ALPHA, "full")>>
 CasesCoset == <<Coset(2, 2, "small")>>
 CasesReducing == <<Reducing(2, "small")>>
 CasesArith == <<Arith(1, "small", "small")>>
+CasesDegCanary == <<Coset(2, 3, "full")>>
 \* degree runs (P = 17): one representative of every kind and parameter shape
 CasesDeg == <<Arith(2, "full", "full"), ArithExt(2, "full", "full"), MulExt(2, "full", "full"), BaseSum(2, 3),
               BaseSum(3, 2), BaseSum(4, 2), Constant(2), Expo(1), Expo(3), Ra(1, 1, 1, "full", "full"),
@@ -100,11 +105,11 @@ NChoices(x) == NC(x) + NH(x) + Len(InputSpec(x))
 
 DomOf(x, s) ==
   CASE s.dom = "bool" -> {0, 1}
-    [] s.dom = "nz" -> IF x.dom = "full" THEN F \ {0} ELSE {1, 3 % P, P - 1}
+    [] s.dom = "nz" -> IF x.dom = "full" THEN F \ {0} ELSE IF x.dom = "small" THEN {1, 3 % P, P - 1} ELSE {1, P - 2}
     [] s.dom = "lt" -> 0..((IF s.n < P THEN s.n ELSE P) - 1)
     [] OTHER -> IF x.dom = "small" THEN Small ELSE IF x.dom = "tiny" THEN Tiny ELSE F
 ChoiceDom(x, k) ==
-  IF k <= NC(x) THEN (IF x.cdom = "small" THEN Small \cup {2 % P} ELSE F)
+  IF k <= NC(x) THEN (IF x.cdom = "small" THEN Small ELSE F)
   ELSE IF k <= NC(x) + NH(x) THEN (IF x.dom = "full" THEN F ELSE Small)
   ELSE DomOf(x, InputSpec(x)[k - NC(x) - NH(x)])
 
@@ -147,12 +152,13 @@ DegVals(x, lp, m) ==
 DegreeInv ==
   Let(DegVals(g, ch, Degree(g) + 1),
       LAMBDA vals : /\ Len(vals[1]) = NumConstraints(g)
-                    /\ \A j \in 1..NumConstraints(g) : DegreeAtMost(vals, j, Degree(g)))
-\* canary: "degree <= Degree(g) - 1" must FAIL for gates that have constraints
-DegreeTightInv ==
-  (NumConstraints(g) > 0 /\ Degree(g) > 0) =>
+                    /\ \A j \in 1..NumConstraints(g) : DegreeAtMost(vals, j, Degree(g) - DegShift))
+\* the declared degree is reached by some constraint on every line (it is exact, not an over-estimate)
+DegreeExactInv ==
+  \* (a 1-bit exponentiation gate has degree 2 but declares the uniform bound 4)
+  (NumConstraints(g) > 0 /\ Degree(g) > 0 /\ ~(g.kind = "expo" /\ g.n = 1)) =>
     Let(DegVals(g, ch, Degree(g)),
-        LAMBDA vals : \A j \in 1..NumConstraints(g) : DegreeAtMost(vals, j, Degree(g) - 1))
+        LAMBDA vals : \E j \in 1..NumConstraints(g) : ~DegreeAtMost(vals, j, Degree(g) - 1))
 
 \* ---------------------------------------------------------------- catalogue
 \* the parameterisations the harness instantiates on the real gates (D = 2, Goldilocks)
